@@ -13,7 +13,7 @@ import (
 func init() {
 	register("C06", PropCheck{
 		Title:      "Signal flags steer control flow and the reserved ones are tamper-proof",
-		Explain:    "Structural clauses decided for all inputs/histories: (R1) every State.SetFlag/ResetFlag call in the library whose flag argument is not a compile-time constant is dominated by the true edge of state.IsWriteableFlag on that same value (lifted through parameters to the callers); (R2) the set accepted by IsWriteableFlag, computed by interval analysis of its body, is exactly {TERMINATE, LANG} plus all indices >= FLAG_USERSTART and equals the 'Writeable?' column of doc/texinfo/signals.texi; (R3) State.Flags is stored to only inside package state; (R4) in Vm.Run every opcode-handler call and every opSplit call is separated from the function entry and from every other handler call by the 'TERMINATE unset' edge of a test of FLAG_TERMINATE, and DefaultEngine.exec does not record new code after a run that left TERMINATE set; (R5) the constant resets of FLAG_TERMINATE in the library are only the no-op behind the test in Run and the engine's session-restart reset; (R6) the move in the CATCH handler and the purge in the CROAK handler are control dependent on the true edge of MatchFlag(sig, mode) applied to the decoded signal and mode, MatchFlag is GetFlag(sig)==mode, nothing else happens on the other edge, and CROAK returns fresh empty code on the match edge; (R8) the reserved flag byte is re-initialised as a whole (State.Restart) only by the engine's session restart, never from package vm (added after seeded change C06-F, where a matching CROAK restarted the state and wiped READIN); (R9) flag addressing loses no bits: package state contains no lossy integer narrowing and no arithmetic in a narrow type that its result can leave (a uint8 byte offset wraps at 256 flag bytes), and the integer decoder that yields the CATCH/CROAK signal decodes every accepted operand length from the operand bytes (shared with C14 R8; added after seeded changes C06-G and C06-H). (R10) = C17 R5 (Finish saves only an initialised engine; added after seeded change C06-L). (R11) the flags external code asks to reset are applied before the ones it asks to set: in no library function is a consuming read of Result.FlagReset reachable from a consuming read of Result.FlagSet (the clear-the-group, raise-one idiom of the repository's examples; added after seeded change C06-M). (R12) the engine's fetch of the pending code is a consuming read: at every call of State.GetCode, State.Code is stored again before the caller returns, on every path - by GetCode itself or by the caller (added after seeded change C06-N, a pure getter that let a croaked node's INCMP lines survive in the saved state).",
+		Explain:    "Structural clauses decided for all inputs/histories: (R1) every State.SetFlag/ResetFlag call in the library whose flag argument is not a compile-time constant is dominated by the true edge of state.IsWriteableFlag on that same value (lifted through parameters to the callers); (R2) the set accepted by IsWriteableFlag, computed by interval analysis of its body, is exactly {TERMINATE, LANG} plus all indices >= FLAG_USERSTART and equals the 'Writeable?' column of doc/texinfo/signals.texi; (R3) State.Flags is stored to only inside package state; (R4) in Vm.Run every opcode-handler call and every opSplit call is separated from the function entry and from every other handler call by the 'TERMINATE unset' edge of a test of FLAG_TERMINATE, and DefaultEngine.exec does not record new code after a run that left TERMINATE set; (R5) the constant resets of FLAG_TERMINATE in the library are only the no-op behind the test in Run and the engine's session-restart reset; (R6) the move in the CATCH handler and the purge in the CROAK handler are control dependent on the true edge of MatchFlag(sig, mode) applied to the decoded signal and mode, MatchFlag is GetFlag(sig)==mode, nothing else happens on the other edge, and CROAK returns fresh empty code on the match edge; (R8) the reserved flag byte is re-initialised as a whole (State.Restart) only by the engine's session restart, never from package vm (added after seeded change C06-F, where a matching CROAK restarted the state and wiped READIN); (R9) flag addressing loses no bits: package state contains no lossy integer narrowing and no arithmetic in a narrow type that its result can leave (a uint8 byte offset wraps at 256 flag bytes), and the integer decoder that yields the CATCH/CROAK signal decodes every accepted operand length from the operand bytes (shared with C14 R8; added after seeded changes C06-G and C06-H). (R10) = C17 R5 (Finish saves only an initialised engine; added after seeded change C06-L). (R11) the flags external code asks to reset are applied before the ones it asks to set: in no library function is a consuming read of Result.FlagReset reachable from a consuming read of Result.FlagSet (the clear-the-group, raise-one idiom of the repository's examples; added after seeded change C06-M). (R12) the engine's fetch of the pending code is a consuming read: at every call of State.GetCode, State.Code is stored again before the caller returns, on every path - by GetCode itself or by the caller (added after seeded change C06-N, a pure getter that let a croaked node's INCMP lines survive in the saved state). (R13) = C20 R15: in the function that applies Result.FlagSet every path from the external call (or the entry, where the result is a parameter) to a return passes the application or the call's own failure edge (added after seeded change C20-P). (R14) = C15 R12: the flag bytes are built only by the constructor (added after seeded change C06-P, a Resize that dropped the reserved byte).",
 		NotDecided: "behaviour for flag indices beyond the configured count (bytecode-supplied ones: C15); what application EntryFuncs do with a *State they captured themselves; transcripts over histories.",
 		Assume:     []string{"external code reaches the state only through resource.Result (documented contract of resource.EntryFunc)"},
 		Run:        runC06,
@@ -172,6 +172,8 @@ func runC06(w *core.World, r *core.Report) {
 	r.Rule("R5", "who may clear FLAG_TERMINATE with a constant reset: the no-op behind Run's test and the engine's session restart")
 	r.Rule("R6", "CATCH moves / CROAK purges exactly on the true edge of MatchFlag(decoded sig, decoded mode); MatchFlag is GetFlag(sig)==mode")
 	r.Rule("R11", "flags requested by external code: the reset list is applied before the set list")
+	r.Rule("R14", "the flag bytes are (re)built only by the constructor (C15 R12): no later resize or copy can drop the reserved byte that holds TERMINATE")
+	r.Rule("R13", "the flags a successful external call asks for are applied on every path (C20 R15)")
 	r.Rule("R12", "the pending code is consumed when the engine fetches it: State.Code is stored again on every path after State.GetCode")
 	r.Rule("R10", "Finish saves only an initialised engine (C17 R5): the pre-VM hook's deferred TERMINATE reset on a blocked session is never stored")
 	r.Rule("R9", "flag addressing loses no bits: no lossy narrowing in package state, and the integer decoder that yields CATCH/CROAK signals decodes every accepted operand length from the operand bytes")
@@ -417,6 +419,8 @@ func runC06(w *core.World, r *core.Report) {
 	checkFinishSavesOnlyInitialised(w, r, "R10")
 	checkResultFlagOrder(w, r, "R11")
 	checkPendingCodeConsumed(w, r, "R12")
+	checkResultFlagsAlwaysApplied(w, r, "R13")
+	checkFlagSizeRelation(w, r, "R14")
 
 	// ---- R6 ----------------------------------------------------------------------------------
 	if mf := anchor(w, r, "state", "(*State).MatchFlag"); mf != nil {
